@@ -198,7 +198,7 @@ def _fn(name, args):
     if name == "sqrt":
         return m.sqrt(a)
     if name == "abs":
-        return abs(a)
+        return float(abs(a))
     if name in ("cos", "sin", "tan", "acos", "asin", "atan", "cosh", "sinh", "tanh", "acosh", "asinh", "atanh", "exp"):
         return getattr(m, name)(a)
     if name == "ln":
@@ -217,10 +217,11 @@ def _fn(name, args):
         return math.erf(a)
     if name in ("atan_2", "atan2"):
         return math.atan2(a, args[1])
+    # fmin/fmax/fabs return a floating value even when an integer operand wins (the value must not be taken for an int by _c_div)
     if name == "min_value":
-        return min(a, args[1])
+        return float(min(a, args[1]))
     if name == "max_value":
-        return max(a, args[1])
+        return float(max(a, args[1]))
     if name in ("bessel_j", "bessel_y"):
         import mpmath
 
